@@ -805,9 +805,40 @@ def syn_pairs(rng):
   return out
 
 
-def check_synonym(ctx, layer, ca, cb, seed):
+def syn_pairs_invalid(rng):
+  """INVALID configurations spelled with strings / tuples and with ints / lists: synonymous spellings must meet the
+  same fate (rejected at the same stage) - a spelling-dependent acceptance is a violation of the synonym clause."""
+  out = []
+  lb = dict(lattice_sizes=[rng.choice([2, 3]), 3], units=rng.choice([1, 2]), dtype="float64")
+  out.append(("Lattice", dict(lb, monotonicities=["decreasing", "none"]), dict(lb, monotonicities=[-1, 0])))
+  out.append(("Lattice", dict(lb, monotonicities=("decreasing", "decreasing")), dict(lb, monotonicities=(-1, -1))))
+  out.append(("Lattice", dict(lb, monotonicities=["decreasing", "increasing"]), dict(lb, monotonicities=[-1, 1])))
+  l3 = dict(lattice_sizes=[3, 3], units=1, dtype="float64")
+  out.append(("Lattice", dict(l3, monotonicities=["increasing", "none"], unimodalities=["valley", "none"]),
+              dict(l3, monotonicities=[1, 0], unimodalities=[1, 0])))
+  out.append(("Lattice", dict(l3, monotonicities=["none", "increasing"], edgeworth_trusts=(0, 1, "positive")),
+              dict(l3, monotonicities=[0, 1], edgeworth_trusts=[(0, 1, 1)])))
+  kb = dict(lattice_sizes=3, units=1, num_terms=2, dtype="float32")
+  out.append(("KroneckerFactoredLattice", dict(kb, monotonicities=["decreasing", "none"]), dict(kb, monotonicities=[-1, 0])))
+  out.append(("KroneckerFactoredLattice", dict(kb, monotonicities=("decreasing", "increasing")),
+              dict(kb, monotonicities=(-1, 1))))
+  pb = dict(input_keypoints=[0.0, 1.0, 3.0], is_cyclic=True, dtype="float64")
+  out.append(("PWLCalibration", dict(pb, monotonicity="increasing"), dict(pb, monotonicity=1)))
+  out.append(("PWLCalibration", dict(pb, convexity="concave"), dict(pb, convexity=-1)))
+  return out
+
+
+def check_synonym(ctx, layer, ca, cb, seed, invalid=False):
   sa, ea, ia = exercise(layer, ca, seed)
   sb, eb, ib = exercise(layer, cb, seed)
+  if invalid:
+    ctx.case(sig=("syn-invalid", layer, repr(ca)), sample=dict(layer=layer, a=repr(ca), b=repr(cb), stage=sa))
+    ctx.count("synonym-invalid:%s:%s" % (layer, sa))
+    if sa != sb or sa == "ok":
+      ctx.fail("synonyms", dict(layer=layer, stage="synonym", exc="", pred="synonym_invalid_spelling"),
+               dict(stream="synonym_invalid", layer=layer, cfg=repr(ca), cfg_b=repr(cb), seed=seed),
+               dict(stage_a=sa, stage_b=sb), "an invalid configuration is treated differently depending on its spelling")
+    return
   ctx.case(sig=("syn", layer, repr(ca)), sample=dict(layer=layer, a=repr(ca), b=repr(cb)))
   ctx.count("synonym:%s:%s" % (layer, sa))
   key = dict(layer=layer, stage="synonym", exc="", pred="synonym")
@@ -1228,6 +1259,8 @@ def run(ctx):
   for layer, ca, cb in syn_pairs(ctx.rng):
     for _ in range(ctx.n(2, 20)):
       check_synonym(ctx, layer, ca, cb, ctx.rng.randrange(10 ** 6))
+  for layer, ca, cb in syn_pairs_invalid(ctx.rng):
+    check_synonym(ctx, layer, ca, cb, ctx.rng.randrange(10 ** 6), invalid=True)
   s = regenerate()
   for name, c in sorted(s["classes"].items()):
     ctx.notes.append("table %s: %d rows (%s of product %d), outcomes %s" % (
@@ -1258,6 +1291,8 @@ def replay(ctx, failure):
     check_table_row(ctx, spec, cfg, outc, exc, msg, rep, "")
   elif stream == "regularizer":
     check_regularizer(ctx, case["layer"], cfg, np.random.RandomState(0))
+  elif stream == "synonym_invalid":
+    check_synonym(ctx, case["layer"], cfg, ast.literal_eval(case["cfg_b"]), case.get("seed", 0), invalid=True)
   elif stream == "synonym":
     check_synonym(ctx, case["layer"], cfg, ast.literal_eval(case["cfg_b"]), case.get("seed", 0))
   else:
